@@ -102,6 +102,17 @@ public:
         return vegas_refine_pdf(results.back().pdf(), alpha_, results.back().adjustment_data());
     }
 
+    void rollback(std::size_t iteration) override
+    {
+        if ((iteration == 0) && !this->results().empty())
+        {
+            // the first result recorded the PDF the run started with
+            pdf_.assign(1, this->results().front().pdf());
+        }
+
+        chkpt<vegas_result<T>>::rollback(iteration);
+    }
+
     void serialize(std::ostream& out) const override
     {
         chkpt<vegas_result<T>>::serialize(out);
